@@ -99,7 +99,7 @@ class C09(core.PropertyCheck):
                 items = [[ty, nm or "z"] if ty == "c" else [ty, nm] for ty, nm in items]
                 # which items live in include files (index of include 0..2, or -1 for the page itself)
                 inc = [rng.choice([-1, -1, 0, 1, 2]) for _ in items]
-                pages.append({"items": items, "inc": inc})
+                pages.append({"items": items, "inc": inc, "dup": rng.random() < 0.35})
             yield {"kind": "rand", "pages": pages}
         for _ in range(budget // 5):
             tnames = [x for x in names if x.strip() and "\t" not in x and not x.startswith("-")]
@@ -119,10 +119,10 @@ class C09(core.PropertyCheck):
                 yield {**case, "pages": pages[:pi] + pages[pi + 1:]}
             its, inc = pages[pi]["items"], pages[pi]["inc"]
             for i in range(len(its)):
-                np_ = {"items": its[:i] + its[i + 1:], "inc": (inc[:i] + inc[i + 1:]) if inc else []}
+                np_ = {**pages[pi], "items": its[:i] + its[i + 1:], "inc": (inc[:i] + inc[i + 1:]) if inc else []}
                 yield {**case, "pages": pages[:pi] + [np_] + pages[pi + 1:]}
             if inc and any(x >= 0 for x in inc):
-                yield {**case, "pages": pages[:pi] + [{"items": its, "inc": [-1] * len(its)}] + pages[pi + 1:]}
+                yield {**case, "pages": pages[:pi] + [{"items": its, "inc": [-1] * len(its), "dup": False}] + pages[pi + 1:]}
 
     # ---- implementation ----
     def build_pages(self, case):
@@ -153,8 +153,16 @@ class C09(core.PropertyCheck):
                 else:
                     fid = f"includes/p{pi}-{ninc}.rst"
                     ninc += 1
-                    pages.append(pp.page(fid, build_nodes(None, its)))
-                    top.append(n.Directive((0,), [], "", "include", [pp.text("/" + fid)], {}))
+                    if pg.get("dup"):
+                        # the same bounded excerpt of one file, included twice on the page
+                        body = [n.Comment((0,), [pp.text("begin-x")])] + build_nodes(None, its) + [n.Comment((0,), [pp.text("end-x")])]
+                        pages.append(pp.page(fid, body))
+                        for _rep in range(2):
+                            top.append(n.Directive((0,), [], "", "include", [pp.text("/" + fid)],
+                                                   {"start-after": "begin-x", "end-before": "end-x"}))
+                    else:
+                        pages.append(pp.page(fid, build_nodes(None, its)))
+                        top.append(n.Directive((0,), [], "", "include", [pp.text("/" + fid)], {}))
             name = "index.txt" if pi == 0 else f"page{pi}.txt"
             pages.append(pp.page(name, top))
             ids.append(name)
@@ -183,7 +191,7 @@ class C09(core.PropertyCheck):
         out = []
         for pg in case["pages"]:
             hs, ts, nf = [], [], 0
-            for ty, name in pg["items"]:
+            for ty, name in expand_dup(pg):
                 if ty == "h":
                     hs.append(heading_id(name))
                 elif ty == "c":
@@ -271,6 +279,22 @@ class C09(core.PropertyCheck):
         if case["kind"] == "rand" and any(x >= 0 for pg in case["pages"] for x in pg["inc"]):
             tags.append("via-include")
         return tags
+
+
+def expand_dup(pg):
+    """items in document order after include expansion (a duplicated bounded include repeats its run)"""
+    items, inc = pg["items"], pg.get("inc") or [-1] * len(pg["items"])
+    if not pg.get("dup"):
+        return list(items)
+    out, run, cur = [], [], None
+    for it, ix in list(zip(items, inc)) + [(None, None)]:
+        if ix != cur and run:
+            out.extend(run if cur is None or cur < 0 else run + run)
+            run = []
+        cur = ix
+        if it is not None:
+            run.append(it)
+    return out
 
 
 def model_raw(case):
